@@ -2,9 +2,10 @@ SPECIFICATION TSpec
 CONSTANTS
   Order = "code"
   D1Fixed = TRUE
+  HopSafe = TRUE
   CLNormalised = TRUE
   BigBodies = TRUE
-  Families = {"id", "sig"}
+  Families = {"id", "sig", "hop"}
 CONSTRAINT Track
 POSTCONDITION Accepted
 CHECK_DEADLOCK FALSE
